@@ -93,7 +93,7 @@ class System:
             if d not in self.content:
                 self.w.mkdir(d)
                 self.w.write('%s/policy.yaml' % d,
-                             world.dumps_policy(FILES['x0']))
+                             world.dumps_policy(FILES['x0'], 'json'))
                 self.content[d] = 'x0'
         self.enfs = []
         self.registered = []
@@ -147,7 +147,7 @@ class System:
             loaded = True
         elif kind == 'edit':
             nxt = 'x1' if self.content[d] == 'x0' else 'x0'
-            self.w.write('%s/policy.yaml' % d, world.dumps_policy(FILES[nxt]))
+            self.w.write('%s/policy.yaml' % d, world.dumps_policy(FILES[nxt], 'json'))
             self.content[d] = nxt
         elif kind == 'register':
             enf.register_defaults(self.shared)
